@@ -252,6 +252,8 @@ impl<
                         self.expiration(k)
                             .and_then(|t| {
                                 if t.is_expired() {
+                                    #[cfg(transparencies_stretto_verif)]
+                                    crate::verif::sched::point("cleanup:after_expiry_check");
                                     let cost = policy.cost(k);
                                     policy.remove(k);
                                     self.try_remove(k, *v)
@@ -289,6 +291,8 @@ impl<
                 let expiration = self.expiration(k);
                 if let Some(t) = expiration {
                     if t.is_expired() {
+                        #[cfg(transparencies_stretto_verif)]
+                        crate::verif::sched::point("cleanup:after_expiry_check");
                         let cost = policy.cost(k);
                         policy.remove(k);
                         let removed_item = self.try_remove(k, *v)?;
